@@ -20,7 +20,7 @@ import (
 
 type c15 struct{}
 
-func init() { core.Register(c15{}) }
+func init()            { core.Register(c15{}) }
 func (c15) ID() string { return "C15" }
 
 type c15Op struct {
@@ -30,10 +30,10 @@ type c15Op struct {
 }
 
 type c15Case struct {
-	Prefix []c15Op `json:"prefix"`
-	Len    int     `json:"len"`
+	Prefix []c15Op  `json:"prefix"`
+	Len    int      `json:"len"`
 	Cfgs   [][2]int `json:"cfgs"` // (data compression, write buffer)
-	Only   []c15Op `json:"only,omitempty"`
+	Only   []c15Op  `json:"only,omitempty"`
 }
 
 var c15Keys = [][]byte{{}, []byte("a"), []byte("ab"), []byte("b"), []byte("ba")}
